@@ -1,6 +1,8 @@
 ------------------------------ MODULE PostGen ------------------------------
 EXTENDS PostProc, Json
 Progs == ndJsonDeserialize("progs.ndjson")
-ASSUME \A i \in DOMAIN Progs : Distinct(Progs[i])
-ASSUME ndJsonSerialize("post_out.ndjson", [i \in DOMAIN Progs |-> [name |-> Progs[i].name, outs |-> Materialise(Progs[i])]])
+ASSUME \A i \in DOMAIN Progs : ~Clash(Progs[i]) => Distinct(Progs[i])
+ASSUME ndJsonSerialize("post_out.ndjson", [i \in DOMAIN Progs |->
+          [name |-> Progs[i].name, clash |-> Clash(Progs[i]),
+           outs |-> IF Clash(Progs[i]) THEN Null ELSE Materialise(Progs[i])]])
 =============================================================================
